@@ -1,3 +1,4 @@
+import Varint.Model.ChainedUnrolled
 import Varint.Model.Tagged
 import Varint.Model.External
 import Varint.Model.Chained
@@ -126,11 +127,11 @@ def signedRt (w : Nat) (s : Int) : String :=
 def chainedAll (v : Nat) : String :=
   let b := Chained.enc v
   let n := b.length
-  let base := s!"n={n} b={hexBytes b} pl={Chained.len v} {optPair "dv" "dl" (Chained.dec b)} {g32 (Chained.dec32 b)}"
+  let base := s!"n={n} b={hexBytes b} pl={Chained.len v} {optPair "dv" "dl" (ChainedU.getVarint b)} {g32 (ChainedU.getVarint32 b)}"
   if v < 2 ^ 32 then s!"{base} p32={hexBytes b}" else base
 
 def chainedDec (bs : List Nat) : String :=
-  s!"{optPair "dv" "dl" (Chained.dec bs)} {g32 (Chained.dec32 bs)}"
+  s!"{optPair "dv" "dl" (ChainedU.getVarint bs)} {g32 (ChainedU.getVarint32 bs)}"
 
 def csimpleAll (v : Nat) : String :=
   let b := ChainedSimple.enc v
